@@ -74,4 +74,45 @@ def inSeconds (len : Int) : Int := Int.tdiv len 1000000
 def inMinutes (len : Int) : Int := Int.tdiv len 60000000
 def inHours (len : Int) : Int := Int.tdiv len 3600000000
 
+/-! ### calendar day counts: `Interval.in_days()` / `Interval.in_weeks()` (interval.py:243-254)
+
+`in_days()` returns `self._delta.total_days` of the `precise_diff` computed in `Interval.__init__` — a difference of
+CALENDAR day numbers of the (wall) dates of the endpoints, not the elapsed time truncated to days. Covered: naive pairs
+and pairs sharing one tzinfo object (operands compare by their wall clocks), and Date pairs. -/
+
+/-- calendar day (days since 1970-01-01) a wall value lies in: floor division -/
+def dayOf (w : Int) : Int := w / DAY
+
+/-- `precise_diff(d1, d2).total_days` (_helpers.py:165-198): `k1`, `k2` are what `d1 == d2` / `d1 > d2` compare
+    (the wall clocks of naive or same-tzinfo datetimes, the day numbers of dates), `n1`, `n2` the day numbers of the
+    operands' dates. Early zero for equal operands, swap + `sign = -1` when `d1 > d2`, `sign * total_days`. -/
+def totalDays (k1 k2 n1 n2 : Int) : Int :=
+  if k1 = k2 then 0
+  else
+    let sw := decide (k1 > k2)
+    let sign : Int := if sw then -1 else 1
+    let m1 := if sw then n2 else n1
+    let m2 := if sw then n1 else n2
+    sign * (m2 - m1)
+
+/-- the endpoints `Interval.__init__` keeps: `if start > end: … if absolute: end, start = start, end`
+    (one shared tzinfo object / naive: `>` compares the wall clocks) -/
+def initEnds (s e : V) (absolute : Bool) : V × V :=
+  if gt s e true && absolute then (e, s) else (s, e)
+
+/-- `Interval(s, e, absolute).in_days()` for naive endpoints or endpoints on one tzinfo object -/
+def inDays (s e : V) (absolute : Bool) : Int :=
+  let p := initEnds s e absolute
+  totalDays p.1.w p.2.w (dayOf p.1.w) (dayOf p.2.w)
+
+/-- `Interval(Date a, Date b, absolute).in_days()` on day numbers -/
+def dateInDays (a b : Int) (absolute : Bool) : Int :=
+  let p : Int × Int := if decide (a > b) && absolute then (b, a) else (a, b)
+  totalDays p.1 p.2 p.1 p.2
+
+/-- `Interval.in_weeks()`: `sign * (abs(days) // 7)` with `sign = -1` iff `days < 0` -/
+def inWeeks (days : Int) : Int :=
+  let sign : Int := if days < 0 then -1 else 1
+  sign * ((if days < 0 then -days else days) / 7)
+
 end Pendulum.Interval
